@@ -553,6 +553,14 @@ func (ex *Exec) newArray(st *State, elem types.Type, zero bool) Term {
 	for _, c := range leafComps(elem) {
 		name := "[]" + typeKey(elem) + c.Suffix
 		h := ex.heap(st, name, Arr2Sort(c.Sort))
+		if c.Sort == SF64 || c.Sort == SBytes {
+			// cvc5 only accepts value constants in constant arrays; the zero of an uninterpreted
+			// sort is a declared constant: state the zero content with a quantified fact instead
+			z := ex.D.Fresh("zeroarr", ArrSort(c.Sort))
+			st.Assume(Term{fmt.Sprintf("(forall ((j Int)) (! (= (select %s j) %s) :pattern ((select %s j))))", z.S, zeroTerm(c.Sort).S, z.S), SBool})
+			st.Heaps[name] = Store(h, arr, z)
+			continue
+		}
 		st.Heaps[name] = Store(h, arr, Term{fmt.Sprintf("((as const %s) %s)", ArrSort(c.Sort), zeroTerm(c.Sort).S), ArrSort(c.Sort)})
 	}
 	return arr
